@@ -122,6 +122,18 @@ Theorem C06_views_agree_dense_field_partial :
 Proof. exact disp_same_frame_describes_world_map. Qed.
 Print Assumptions C06_views_agree_dense_field_partial.
 
+(* the FULL clause for any other grid, as a statement about the re-expressed matrix (what CompositeTransform.disp computes for
+   composite linear classes -- tied by correspondence on arbitrary grids -- and what SpatialTransform.disp should compute) *)
+Theorem C06_dense_field_reexpressed_is_world_map :
+  forall (K : fld), is_field K -> char0 K ->
+  forall D : nat, D = 2%nat \/ D = 3%nat ->
+  forall (f : form) (a : nat -> nat -> K) (ac ac' : bool) (g h : gridf) (X : list K),
+  gwf D g -> gwf D h -> length X = D ->
+  disp_reexpressed D f (tab D (fcols D f) a) ac g ac' h X
+  = field_of_world_map D (world_map D f (tab D (fcols D f) a) ac g) ac' h X.
+Proof. exact disp_reexpressed_describes_world_map. Qed.
+Print Assumptions C06_dense_field_reexpressed_is_world_map.
+
 Theorem C06_views_agree_dense_field_refuted :
   exists (M : list (list Qc)) (g h : gridf (K:=QcF)) (x : list Qc),
     view_disp (K:=QcF) 2 FT M x <> field_of_world_map (K:=QcF) 2 (world_map (K:=QcF) 2 FT M false g) false h x /\
